@@ -6,12 +6,33 @@
   The model (`PyElf.Model.Notes`) follows notes.py as repaired by the C14 fix
   (`while offset + nhdr_size <= end`); with the original `<` the first theorem is false:
   a final note consisting of a header only, ending exactly at the extent end, was dropped.
+
+  Fourth wave (second half of the file):
+  * whole files — `file_section_notes_exact`, `file_segment_notes_exact`,
+    `file_segment_notes_over_sections`, `file_section_view_eq_segment_view` and their `_generated`
+    forms: for every C01-well-formed ELF description with an SHT_NOTE section / PT_NOTE program header
+    over encoded notes and ANY byte string carrying it, `ELFFile(BytesIO(bytes)).get_section(i)
+    .iter_notes()` / `.get_segment(j).iter_notes()` (Model/NotesFile.lean = C01's mirror of elffile.py
+    + the notes mirror) yield exactly the notes; the `_generated` forms are about the very function the
+    driver runs (regenerated tables, struct factory and machine classification: Props/TieC14File.lean).
+  * edge of the domain — `final_note_without_padding`, `last_note_past_extent_end` (name / descriptor /
+    padding past the extent end: yielded in full, clean stop), `truncated_header_error` (ELFParseError),
+    `unterminated_name_error` (construct error), `descriptor_cut_by_end_of_file` (short `n_descdata`),
+    `notes_roundtrip_at` (truncated header INSIDE the extent: clean stop).
+  Correspondence-only: everything outside these domains (descriptors of a known type that do not have the
+  type's grammar, name fields with bytes after the terminator, extents running on after a cut note, files
+  C01 does not call well-formed, objects without `iter_notes`), and the tie of the hand-written
+  mirrors to the Python text.
 -/
 import PyElf.Spec.Notes
 import PyElf.Model.Env
 import PyElf.Model.Notes
 import PyElf.Proofs.Notes
+import PyElf.Proofs.NotesEdge
+import PyElf.Proofs.NotesFile
 import PyElf.Props.TieC14
+import PyElf.Props.TieC14File
+import PyElf.Props.C01
 namespace PyElf.Props.C14
 open PyElf PyElf.Spec PyElf.Model PyElf.Proofs.Notes
 
@@ -206,5 +227,353 @@ example : Note.wf core32 ⟨some [0x43, 0x4f, 0x52, 0x45], 3,
 example : Stab.wf ⟨1, 0x64, 0, 2, 0x8048000⟩ = true := by decide
 /-- the 32-byte witness of the repaired defect: a 20-byte note followed by a header-only one -/
 example : (encodeNotes cfg64 [⟨some [0x41, 0x42, 0x43], 99, .raw [1, 2, 3, 4]⟩, ⟨none, 7, .raw []⟩]).length = 32 := by decide
+
+/-! ## Fourth wave
+
+  ### whole files (composition with C01)
+
+  `d` is an abstract ELF description (Spec/ElfImage.lean), `bytes` ANY byte string that carries it
+  (`Layout d bytes`: header, tables and section bodies sit where the description puts them, nothing
+  else is constrained), `d.wfZ env` C01's well-formedness (compressed sections admitted).  The model
+  functions `fileSectionNotes` / `fileSegmentNotes` (Model/NotesFile.lean) are
+  `ELFFile(BytesIO(bytes)).get_section(i).iter_notes()` / `.get_segment(j).iter_notes()`: C01's mirror
+  of elffile.py followed by the mirror of notes.py on the header the file object decoded.
+
+  Alignment: the code hands (`sh_offset`, `sh_size`) resp. (`p_offset`, `p_filesz`) to `iter_notes`
+  and rounds name and descriptor to 4 bytes whatever `sh_addralign` / `p_align` say (no 8-byte
+  variant exists in this code); accordingly the theorems put no condition on those two fields, and the
+  Spec encoder pads to 4. -/
+
+open PyElf.Spec.C14 PyElf.Model.C14 PyElf.Proofs.NotesEdge PyElf.Proofs.NotesFile
+
+/-- the regenerated tables name SHT_NOTE = 7 and PT_NOTE = 4 (gABI) in every machine's table -/
+theorem elfEnv_note : EnvNote Model.elfEnv where
+  sh m := by unfold shTypeTable; split <;> rfl
+  pt m := by unfold pTypeTable; split <;> rfl
+
+/-- For every well-formed description with a section `i` of type SHT_NOTE whose body is the encoding
+    of `ns` (followed by fewer than 12 bytes) and whose `sh_size` is the body's length, and ANY byte
+    string carrying the description: `ELFFile(BytesIO(bytes)).get_section(i).iter_notes()` yields
+    exactly the notes of `ns`, at their file offsets. -/
+theorem file_section_notes_exact (env : Env) (he : EnvOK env) (hn : EnvNote env) (d : ElfDesc) (bytes : Bytes)
+    (obs : ElfObs) (hwf : d.wfZ env = true) (hl : Layout d bytes) (ho : d.observe env = .ok obs)
+    (i : Nat) (sd : SecDesc) (hsd : d.sections[i]? = some sd)
+    (hty : Fields.get? sd.hdr "sh_type" = some (.int 7))
+    (ns : List Note) (hns : ∀ n ∈ ns, n.wf d.cfg = true) (tail : Bytes) (htail : tail.length < 12)
+    (hbody : sd.body = some (encodeNotes d.cfg ns ++ tail))
+    (hsize : getNatD sd.hdr "sh_size" = (encodeNotes d.cfg ns).length + tail.length) :
+    fileSectionNotes env C01.specStructs C01.specMachineClass bytes i
+      = .ok (obsNotes d.cfg (getNatD sd.hdr "sh_offset") ns) := by
+  rw [C01.specStructs_eq, C01.specMachineClass_eq]
+  exact fileSectionNotes_ok he hn hwf hl ho hsd hty ns hns tail htail hbody hsize
+
+/-- The same for a PT_NOTE program header `j` whose extent (`p_offset`, `p_filesz`) lies in the body
+    of a section of the description (`pre = post = []`: it IS the body of that section). -/
+theorem file_segment_notes_exact (env : Env) (he : EnvOK env) (hn : EnvNote env) (d : ElfDesc) (bytes : Bytes)
+    (obs : ElfObs) (hwf : d.wfZ env = true) (hl : Layout d bytes) (ho : d.observe env = .ok obs)
+    (j : Nat) (p : Fields) (hp : d.segments[j]? = some p)
+    (hty : Fields.get? p "p_type" = some (.int 4))
+    (sd : SecDesc) (hm : sd ∈ d.sections)
+    (ns : List Note) (hns : ∀ n ∈ ns, n.wf d.cfg = true) (pre tail post : Bytes) (htail : tail.length < 12)
+    (hbody : sd.body = some (pre ++ (encodeNotes d.cfg ns ++ tail) ++ post))
+    (hoff : getNatD p "p_offset" = getNatD sd.hdr "sh_offset" + pre.length)
+    (hsize : getNatD p "p_filesz" = (encodeNotes d.cfg ns).length + tail.length) :
+    fileSegmentNotes env C01.specStructs C01.specMachineClass bytes j
+      = .ok (obsNotes d.cfg (getNatD p "p_offset") ns) := by
+  rw [C01.specStructs_eq, C01.specMachineClass_eq]
+  exact fileSegmentNotes_ok he hn hwf hl ho hp hty hm ns hns pre tail post htail hbody hoff hsize
+
+/-- … and for a PT_NOTE program header covering several sections (indices `is`) laid end to end
+    (`.note.gnu.property`, `.note.gnu.build-id`, `.note.ABI-tag` under one segment; `adjacentBodies` is
+    their bodies concatenated when each starts where the previous one ends): the notes of all of them,
+    in file order. -/
+theorem file_segment_notes_over_sections (env : Env) (he : EnvOK env) (hn : EnvNote env) (d : ElfDesc) (bytes : Bytes)
+    (obs : ElfObs) (hwf : d.wfZ env = true) (hl : Layout d bytes) (ho : d.observe env = .ok obs)
+    (j : Nat) (p : Fields) (hp : d.segments[j]? = some p)
+    (hty : Fields.get? p "p_type" = some (.int 4))
+    (is : List Nat) (ns : List Note) (hns : ∀ n ∈ ns, n.wf d.cfg = true) (tail : Bytes) (htail : tail.length < 12)
+    (hadj : adjacentBodies d (getNatD p "p_offset") is = some (encodeNotes d.cfg ns ++ tail))
+    (hsize : getNatD p "p_filesz" = (encodeNotes d.cfg ns).length + tail.length) :
+    fileSegmentNotes env C01.specStructs C01.specMachineClass bytes j
+      = .ok (obsNotes d.cfg (getNatD p "p_offset") ns) := by
+  rw [C01.specStructs_eq, C01.specMachineClass_eq]
+  exact fileSegmentNotes_adjacent he hn hwf hl ho hp hty is ns hns tail htail hadj hsize
+
+/-- Section view = segment view for whole files: a PT_NOTE program header and an SHT_NOTE section over
+    the same bytes of any file carrying the description yield the same notes. -/
+theorem file_section_view_eq_segment_view (env : Env) (he : EnvOK env) (hn : EnvNote env) (d : ElfDesc) (bytes : Bytes)
+    (obs : ElfObs) (hwf : d.wfZ env = true) (hl : Layout d bytes) (ho : d.observe env = .ok obs)
+    (i : Nat) (sd : SecDesc) (hsd : d.sections[i]? = some sd) (htys : Fields.get? sd.hdr "sh_type" = some (.int 7))
+    (j : Nat) (p : Fields) (hp : d.segments[j]? = some p) (htyp : Fields.get? p "p_type" = some (.int 4))
+    (ns : List Note) (hns : ∀ n ∈ ns, n.wf d.cfg = true) (tail : Bytes) (htail : tail.length < 12)
+    (hbody : sd.body = some (encodeNotes d.cfg ns ++ tail))
+    (hsize : getNatD sd.hdr "sh_size" = (encodeNotes d.cfg ns).length + tail.length)
+    (hoff : getNatD p "p_offset" = getNatD sd.hdr "sh_offset")
+    (hfsz : getNatD p "p_filesz" = getNatD sd.hdr "sh_size") :
+    fileSegmentNotes env C01.specStructs C01.specMachineClass bytes j
+      = fileSectionNotes env C01.specStructs C01.specMachineClass bytes i := by
+  rw [file_section_notes_exact env he hn d bytes obs hwf hl ho i sd hsd htys ns hns tail htail hbody hsize,
+    file_segment_notes_exact env he hn d bytes obs hwf hl ho j p hp htyp sd (List.mem_of_getElem? hsd) ns hns [] tail []
+      htail (by simpa using hbody) (by simpa using hoff) (by rw [hfsz, hsize]), hoff]
+
+/-- Reduction, with no hypothesis on the contents: for every well-formed description, an SHT_NOTE
+    section `i` and any byte string carrying the description, `get_section(i).iter_notes()` IS
+    `iter_notes` at (`sh_offset`, `sh_size`) of the description's header with the description's struct
+    bundle and class.  Every extent-level theorem of this file (round trip, edge of the domain) thereby
+    speaks about whole files. -/
+theorem file_section_notes_reduce (env : Env) (hn : EnvNote env) (d : ElfDesc) (bytes : Bytes)
+    (obs : ElfObs) (hwf : d.wfZ env = true) (hl : Layout d bytes) (ho : d.observe env = .ok obs)
+    (i : Nat) (sd : SecDesc) (hsd : d.sections[i]? = some sd)
+    (hty : Fields.get? sd.hdr "sh_type" = some (.int 7)) :
+    fileSectionNotes env C01.specStructs C01.specMachineClass bytes i
+      = iterNotes (elfStructs d.cfg) env d.cfg.cls bytes (getNatD sd.hdr "sh_offset") (getNatD sd.hdr "sh_size") := by
+  rw [C01.specStructs_eq, C01.specMachineClass_eq]
+  exact fileSectionNotes_reduce hn hwf hl ho hsd hty
+
+theorem file_segment_notes_reduce (env : Env) (hn : EnvNote env) (d : ElfDesc) (bytes : Bytes)
+    (obs : ElfObs) (hwf : d.wfZ env = true) (hl : Layout d bytes) (ho : d.observe env = .ok obs)
+    (j : Nat) (p : Fields) (hp : d.segments[j]? = some p)
+    (hty : Fields.get? p "p_type" = some (.int 4)) :
+    fileSegmentNotes env C01.specStructs C01.specMachineClass bytes j
+      = iterNotes (elfStructs d.cfg) env d.cfg.cls bytes (getNatD p "p_offset") (getNatD p "p_filesz") := by
+  rw [C01.specStructs_eq, C01.specMachineClass_eq]
+  exact fileSegmentNotes_reduce hn hwf hl ho hp hty
+
+/-- … and the bytes of such a file from the offset of a section on begin with the body the description
+    gives the section (the `data.drop off = …` hypothesis of the extent-level theorems) -/
+theorem file_bytes_at_section (d : ElfDesc) (bytes : Bytes) (hl : Layout d bytes) (sd : SecDesc) (hm : sd ∈ d.sections)
+    (body : Bytes) (hb : sd.body = some body) :
+    bytes.drop (getNatD sd.hdr "sh_offset") = body ++ bytes.drop (getNatD sd.hdr "sh_offset" + body.length) :=
+  body_drop (Proofs.layout_facts hl) hm hb
+
+/-- closed over the regenerated tables -/
+theorem file_section_notes_exact_generated_env (d : ElfDesc) (bytes : Bytes)
+    (obs : ElfObs) (hwf : d.wfZ Model.elfEnv = true) (hl : Layout d bytes) (ho : d.observe Model.elfEnv = .ok obs)
+    (i : Nat) (sd : SecDesc) (hsd : d.sections[i]? = some sd)
+    (hty : Fields.get? sd.hdr "sh_type" = some (.int 7))
+    (ns : List Note) (hns : ∀ n ∈ ns, n.wf d.cfg = true) (tail : Bytes) (htail : tail.length < 12)
+    (hbody : sd.body = some (encodeNotes d.cfg ns ++ tail))
+    (hsize : getNatD sd.hdr "sh_size" = (encodeNotes d.cfg ns).length + tail.length) :
+    fileSectionNotes Model.elfEnv C01.specStructs C01.specMachineClass bytes i
+      = .ok (obsNotes d.cfg (getNatD sd.hdr "sh_offset") ns) :=
+  file_section_notes_exact _ TieC14.elfEnv_ok elfEnv_note d bytes obs hwf hl ho i sd hsd hty ns hns tail htail hbody hsize
+
+theorem file_segment_notes_exact_generated_env (d : ElfDesc) (bytes : Bytes)
+    (obs : ElfObs) (hwf : d.wfZ Model.elfEnv = true) (hl : Layout d bytes) (ho : d.observe Model.elfEnv = .ok obs)
+    (j : Nat) (p : Fields) (hp : d.segments[j]? = some p)
+    (hty : Fields.get? p "p_type" = some (.int 4))
+    (sd : SecDesc) (hm : sd ∈ d.sections)
+    (ns : List Note) (hns : ∀ n ∈ ns, n.wf d.cfg = true) (pre tail post : Bytes) (htail : tail.length < 12)
+    (hbody : sd.body = some (pre ++ (encodeNotes d.cfg ns ++ tail) ++ post))
+    (hoff : getNatD p "p_offset" = getNatD sd.hdr "sh_offset" + pre.length)
+    (hsize : getNatD p "p_filesz" = (encodeNotes d.cfg ns).length + tail.length) :
+    fileSegmentNotes Model.elfEnv C01.specStructs C01.specMachineClass bytes j
+      = .ok (obsNotes d.cfg (getNatD p "p_offset") ns) :=
+  file_segment_notes_exact _ TieC14.elfEnv_ok elfEnv_note d bytes obs hwf hl ho j p hp hty sd hm ns hns pre tail post
+    htail hbody hoff hsize
+
+/-- closed over the whole tie: the function the driver runs on every generated file — the file-level
+    model with the enum tables, the struct factory and the machine classification regenerated from the
+    library on this run (`TieC14File.openElf_generated`: it opens every byte string as the Spec's does) -/
+theorem file_section_notes_exact_generated (d : ElfDesc) (bytes : Bytes)
+    (obs : ElfObs) (hwf : d.wfZ Model.elfEnv = true) (hl : Layout d bytes) (ho : d.observe Model.elfEnv = .ok obs)
+    (i : Nat) (sd : SecDesc) (hsd : d.sections[i]? = some sd)
+    (hty : Fields.get? sd.hdr "sh_type" = some (.int 7))
+    (ns : List Note) (hns : ∀ n ∈ ns, n.wf d.cfg = true) (tail : Bytes) (htail : tail.length < 12)
+    (hbody : sd.body = some (encodeNotes d.cfg ns ++ tail))
+    (hsize : getNatD sd.hdr "sh_size" = (encodeNotes d.cfg ns).length + tail.length) :
+    fileSectionNotes Model.elfEnv Model.elfStructsFor Model.machineClassOf bytes i
+      = .ok (obsNotes d.cfg (getNatD sd.hdr "sh_offset") ns) := by
+  rw [TieC14File.fileSectionNotes_generated]
+  exact fileSectionNotes_ok TieC14.elfEnv_ok elfEnv_note hwf hl ho hsd hty ns hns tail htail hbody hsize
+
+theorem file_segment_notes_exact_generated (d : ElfDesc) (bytes : Bytes)
+    (obs : ElfObs) (hwf : d.wfZ Model.elfEnv = true) (hl : Layout d bytes) (ho : d.observe Model.elfEnv = .ok obs)
+    (j : Nat) (p : Fields) (hp : d.segments[j]? = some p)
+    (hty : Fields.get? p "p_type" = some (.int 4))
+    (sd : SecDesc) (hm : sd ∈ d.sections)
+    (ns : List Note) (hns : ∀ n ∈ ns, n.wf d.cfg = true) (pre tail post : Bytes) (htail : tail.length < 12)
+    (hbody : sd.body = some (pre ++ (encodeNotes d.cfg ns ++ tail) ++ post))
+    (hoff : getNatD p "p_offset" = getNatD sd.hdr "sh_offset" + pre.length)
+    (hsize : getNatD p "p_filesz" = (encodeNotes d.cfg ns).length + tail.length) :
+    fileSegmentNotes Model.elfEnv Model.elfStructsFor Model.machineClassOf bytes j
+      = .ok (obsNotes d.cfg (getNatD p "p_offset") ns) := by
+  rw [TieC14File.fileSegmentNotes_generated]
+  exact fileSegmentNotes_ok TieC14.elfEnv_ok elfEnv_note hwf hl ho hp hty hm ns hns pre tail post htail hbody hoff hsize
+
+theorem file_segment_notes_over_sections_generated (d : ElfDesc) (bytes : Bytes)
+    (obs : ElfObs) (hwf : d.wfZ Model.elfEnv = true) (hl : Layout d bytes) (ho : d.observe Model.elfEnv = .ok obs)
+    (j : Nat) (p : Fields) (hp : d.segments[j]? = some p)
+    (hty : Fields.get? p "p_type" = some (.int 4))
+    (is : List Nat) (ns : List Note) (hns : ∀ n ∈ ns, n.wf d.cfg = true) (tail : Bytes) (htail : tail.length < 12)
+    (hadj : adjacentBodies d (getNatD p "p_offset") is = some (encodeNotes d.cfg ns ++ tail))
+    (hsize : getNatD p "p_filesz" = (encodeNotes d.cfg ns).length + tail.length) :
+    fileSegmentNotes Model.elfEnv Model.elfStructsFor Model.machineClassOf bytes j
+      = .ok (obsNotes d.cfg (getNatD p "p_offset") ns) := by
+  rw [TieC14File.fileSegmentNotes_generated]
+  exact fileSegmentNotes_adjacent TieC14.elfEnv_ok elfEnv_note hwf hl ho hp hty is ns hns tail htail hadj hsize
+
+/-! non-vacuity of the whole-file hypotheses.  `ElfDesc.wfZ`, `Layout` and `observe` are C01's
+    (`C01.assemble_layout_z` produces layouts; `Con.encodeRaw` / `Con.decodeRaw` are compiled by
+    well-founded recursion and do not reduce in the kernel, so — as for C09 / C11 — `wfZ` and the
+    hypotheses below are evaluated by the driver on every generated file: the harness counts the cases
+    inside the theorems' domain as `file:*:theorem-domain`; the description below, sent through the
+    driver, is `wfZ` and in the domain of all three theorems).  The hypotheses that are C14's own, on a
+    concrete description: two note sections laid end to end (8- and 4-aligned), a PT_NOTE header over
+    the first and one over both. -/
+
+private def exNotesA : List Note := [⟨some gnuOwner, 3, .buildId [1, 2, 3, 4, 5]⟩, ⟨none, 7, .raw []⟩]
+private def exNotesB : List Note := [⟨some gnuOwner, 1, .abiTag 0 3 2 0⟩]
+
+private def exShdr (ty off size align : Nat) : Fields :=
+  [("sh_type", .int ty), ("sh_flags", .int 2), ("sh_addr", .int 0), ("sh_offset", .int off), ("sh_size", .int size),
+   ("sh_link", .int 0), ("sh_info", .int 0), ("sh_addralign", .int align), ("sh_entsize", .int 0)]
+
+private def exPhdr (off size align : Nat) : Fields :=
+  [("p_type", .int 4), ("p_flags", .int 4), ("p_offset", .int off), ("p_vaddr", .int 0), ("p_paddr", .int 0),
+   ("p_filesz", .int size), ("p_memsz", .int size), ("p_align", .int align)]
+
+private def exDesc : ElfDesc :=
+  { cls := 64, le := true, mclass := "EM_X86_64", solaris := false, core := false,
+    ehdr := [("EI_VERSION", .int 1), ("e_type", .int 2), ("e_machine", .int 62), ("e_version", .int 1), ("e_ehsize", .int 64)],
+    shoff := 512, phoff := 64, shentsize := 64, phentsize := 56,
+    sections := [⟨[], exShdr 0 0 0 0, none, 0⟩,
+                 ⟨[0x2e, 0x6e], exShdr 7 256 36 8, some (encodeNotes cfg64 exNotesA), 1⟩,
+                 ⟨[0x2e, 0x6e], exShdr 7 292 32 4, some (encodeNotes cfg64 exNotesB), 1⟩,
+                 ⟨[0x2e, 0x73], exShdr 3 400 7 1, some [0, 0x2e, 0x6e, 0, 0x2e, 0x73, 0], 4⟩],
+    segments := [exPhdr 256 36 8, exPhdr 256 68 4],
+    shstrndx := 3 }
+
+example : exDesc.cfg = cfg64 := rfl
+example : ∀ n ∈ exNotesA ++ exNotesB, n.wf cfg64 = true := by decide
+example : exDesc.sections[1]? = some ⟨[0x2e, 0x6e], exShdr 7 256 36 8, some (encodeNotes cfg64 exNotesA ++ []), 1⟩ := by
+  simp [exDesc]
+example : Fields.get? (exShdr 7 256 36 8) "sh_type" = some (.int 7) := by simp [Fields.get?, exShdr]
+example : getNatD (exShdr 7 256 36 8) "sh_size" = (encodeNotes cfg64 exNotesA).length + ([] : Bytes).length := by decide
+example : exDesc.segments[0]? = some (exPhdr 256 36 8) ∧ exDesc.segments[1]? = some (exPhdr 256 68 4) := ⟨rfl, rfl⟩
+example : Fields.get? (exPhdr 256 36 8) "p_type" = some (.int 4) := by simp [Fields.get?, exPhdr]
+example : getNatD (exPhdr 256 36 8) "p_offset" = getNatD (exShdr 7 256 36 8) "sh_offset" + ([] : Bytes).length
+    ∧ getNatD (exPhdr 256 36 8) "p_filesz" = getNatD (exShdr 7 256 36 8) "sh_size" := by decide
+/-- the second PT_NOTE covers both sections: their bodies end to end are the encoding of all three notes -/
+example : adjacentBodies exDesc (getNatD (exPhdr 256 68 4) "p_offset") [1, 2]
+    = some (encodeNotes cfg64 (exNotesA ++ exNotesB) ++ []) := by decide
+example : getNatD (exPhdr 256 68 4) "p_filesz" = (encodeNotes cfg64 (exNotesA ++ exNotesB)).length + ([] : Bytes).length := by
+  decide
+
+/-! ### the edge of the domain: extents that are not whole padded notes + < 12 bytes
+
+  `data.drop off = X ++ rest` says: the bytes of the file from offset `off` on begin with `X`
+  (`rest` is everything after, possibly empty = end of file).  `size` is the declared extent size. -/
+
+/-- the round trip in this form (the extent is the notes and `k < 12` further bytes, which may be a
+    truncated header: the walk stops cleanly) -/
+theorem notes_roundtrip_at (env : Env) (he : EnvOK env) (c : ElfCfg) (hc : cfgWf c = true) (ns : List Note)
+    (hwf : ∀ n ∈ ns, n.wf c = true) (data : Bytes) (off k : Nat) (rest : Bytes) (hk : k < 12)
+    (hd : data.drop off = encodeNotes c ns ++ rest) :
+    iterNotes (Spec.elfStructs c) env c.cls data off ((encodeNotes c ns).length + k) = .ok (obsNotes c off ns) :=
+  iterNotes_drop he c hc ns hwf data off k rest hk hd
+
+/-- A last note whose HEADER lies inside the extent is yielded in full, whatever of its name,
+    descriptor and padding lies beyond the extent end (`iter_notes` bounds the header only and reads
+    name and descriptor from the stream), and the walk stops there.  In particular
+    (`size = |notes| + |bare note|`): a final note WITHOUT trailing padding, ending exactly at the
+    extent end — and at the end of the file when `rest = []` — is yielded like any other, with the
+    padded `n_size`. -/
+theorem last_note_past_extent_end (env : Env) (he : EnvOK env) (c : ElfCfg) (hc : cfgWf c = true) (ns : List Note)
+    (hwf : ∀ n ∈ ns, n.wf c = true) (n : Note) (hn : n.wf c = true) (data : Bytes) (off size : Nat) (rest : Bytes)
+    (hd : data.drop off = encodeNotes c ns ++ (encNoteBare c n ++ rest))
+    (hlo : (encodeNotes c ns).length + 12 ≤ size)
+    (hhi : size < (encodeNotes c ns).length + (encNote c n).length + 12) :
+    iterNotes (Spec.elfStructs c) env c.cls data off size = .ok (obsNotes c off (ns ++ [n])) :=
+  iterNotes_overrun he c hc ns hwf n hn data off size rest hd hlo hhi
+
+theorem final_note_without_padding (env : Env) (he : EnvOK env) (c : ElfCfg) (hc : cfgWf c = true) (ns : List Note)
+    (hwf : ∀ n ∈ ns, n.wf c = true) (n : Note) (hn : n.wf c = true) (data : Bytes) (off : Nat) (rest : Bytes)
+    (hd : data.drop off = encodeNotes c ns ++ (encNoteBare c n ++ rest)) :
+    iterNotes (Spec.elfStructs c) env c.cls data off ((encodeNotes c ns).length + (encNoteBare c n).length)
+      = .ok (obsNotes c off (ns ++ [n])) := by
+  have h1 := encNoteBare_length c n
+  have h2 := encNote_length c n
+  exact iterNotes_overrun he c hc ns hwf n hn data off _ rest hd (by omega) (by omega)
+
+/-- The extent promises (at least) one more header after the notes, the file ends before 12 bytes of
+    it: `struct_parse` raises ELFParseError (the notes before it were yielded; the drained walk is the error). -/
+theorem truncated_header_error (env : Env) (he : EnvOK env) (c : ElfCfg) (hc : cfgWf c = true) (ns : List Note)
+    (hwf : ∀ n ∈ ns, n.wf c = true) (data : Bytes) (off size : Nat) (rest : Bytes)
+    (hd : data.drop off = encodeNotes c ns ++ rest) (hrest : rest.length < 12)
+    (hsize : (encodeNotes c ns).length + 12 ≤ size) :
+    iterNotes (Spec.elfStructs c) env c.cls data off size = .error .elfParseError :=
+  iterNotes_truncated he c hc ns hwf data off size rest hd hrest hsize
+
+/-- A header with `n_namesz > 0` whose name field (the `roundup(n_namesz, 4)` bytes after the header, or
+    as many as the file still has) holds no NUL — a name that is not terminated, or runs past the end
+    of the file: `CString('').parse` raises construct's error, which `iter_notes` does not wrap. -/
+theorem unterminated_name_error (env : Env) (he : EnvOK env) (c : ElfCfg) (hc : cfgWf c = true) (ns : List Note)
+    (hwf : ∀ n ∈ ns, n.wf c = true) (namesz descsz type : Nat)
+    (hn0 : 0 < namesz) (hns : namesz < 2 ^ 32) (hds : descsz < 2 ^ 32) (hty : type < 2 ^ 32)
+    (data : Bytes) (off size : Nat) (rest : Bytes)
+    (hd : data.drop off = encodeNotes c ns ++ (encNhdr c namesz descsz type ++ rest))
+    (hnul : ∀ b ∈ rest.take (namesz + pad4 namesz), b ≠ 0)
+    (hsize : (encodeNotes c ns).length + 12 ≤ size) :
+    iterNotes (Spec.elfStructs c) env c.cls data off size = .error .structError :=
+  iterNotes_name_unterminated he c hc ns hwf namesz descsz type hn0 hns hds hty data off size rest hd hnul hsize
+
+/-- The file ends inside the descriptor of the last note (`n_descsz` runs past the end of the file), the
+    type calling for no structured descriptor: `stream.read` returns what is there, the note is yielded
+    with the declared sizes and the available bytes, and the walk stops unless the extent reaches 12
+    bytes past the note's declared end (then the next header read is `truncated_header_error`'s). -/
+theorem descriptor_cut_by_end_of_file (env : Env) (he : EnvOK env) (c : ElfCfg) (hc : cfgWf c = true) (ns : List Note)
+    (hwf : ∀ n ∈ ns, n.wf c = true) (owner : Option Bytes) (type descsz : Nat) (avail : Bytes)
+    (how : ownerWf owner = true) (hnl : (nameField owner).length < 2 ^ 32) (htl : type < 2 ^ 32) (hdl : descsz < 2 ^ 32)
+    (hk : descKind c.core owner type = .raw) (hlt : avail.length ≤ descsz)
+    (data : Bytes) (off size : Nat)
+    (hd : data.drop off = encodeNotes c ns ++ encNoteCut c owner type descsz avail)
+    (hlo : (encodeNotes c ns).length + 12 ≤ size)
+    (hhi : size < (encodeNotes c ns).length + (12 + paddedLen (nameField owner).length + paddedLen descsz) + 12) :
+    iterNotes (Spec.elfStructs c) env c.cls data off size
+      = .ok (obsNotes c off ns ++ [obsNoteCut c (off + (encodeNotes c ns).length) owner type descsz avail]) :=
+  iterNotes_desc_cut he c hc ns hwf owner type descsz avail how hnl htl hdl hk hlt data off size hd hlo hhi
+
+/-! ### inputs at the border of `Note.wf` that the quantifier names -/
+
+/-- a zero-length name (`n_namesz = 0`) and a name that is only the terminator (`n_namesz = 1`) are
+    well-formed owners: `None` resp. `''` is reported -/
+example (c : ElfCfg) (t : Nat) (ht : t < 2 ^ 32) (d : Bytes) (hd : d.length < 2 ^ 32) (hk : descKind c.core none t = .raw) :
+    Note.wf c ⟨none, t, .raw d⟩ = true := by
+  simp [Note.wf, ownerWf, nameField, encDesc, Desc.wf, Desc.kind, ht, hd, hk]
+example : obsOwner none = .none ∧ obsOwner (some []) = .str "" := ⟨rfl, rfl⟩
+
+/-- descriptors of every length (hence every residue mod 4) are well-formed raw descriptors, for any
+    owner and any type the file kind does not assign a grammar — in particular unknown types of the
+    owner "GNU" and unknown owners -/
+theorem raw_note_wf (c : ElfCfg) (o : Option Bytes) (t : Nat) (d : Bytes) (ho : ownerWf o = true)
+    (hol : (nameField o).length < 2 ^ 32) (ht : t < 2 ^ 32) (hd : d.length < 2 ^ 32) (hk : descKind c.core o t = .raw) :
+    Note.wf c ⟨o, t, .raw d⟩ = true := by
+  simp [Note.wf, ho, hol, encDesc, Desc.wf, Desc.kind, ht, hd, hk]
+
+/-- unknown types of a known owner: outside a core file, "GNU" notes of every type but 1, 3, 4, 5 carry a
+    raw descriptor; other owners always do -/
+theorem gnu_unknown_type_raw (t : Nat) (h : t ≠ 1 ∧ t ≠ 3 ∧ t ≠ 4 ∧ t ≠ 5) : descKind false (some gnuOwner) t = .raw := by
+  simp [descKind, h.1, h.2.1, h.2.2.1, h.2.2.2]
+
+theorem other_owner_raw (o : Option Bytes) (t : Nat) (h : o ≠ some gnuOwner) : descKind false o t = .raw := by
+  simp [descKind, h]
+
+theorem core_unknown_type_raw (o : Option Bytes) (t : Nat) (h : t ≠ 3 ∧ t ≠ 0x46494c45) : descKind true o t = .raw := by
+  simp [descKind, h.1, h.2]
+
+/-! ### non-vacuity of the fourth-wave hypotheses -/
+
+example : Note.wf cfg64 ⟨some gnuOwner, 2, .raw [1, 2, 3, 4, 5]⟩ = true := by decide
+example : Note.wf cfg64 ⟨some gnuOwner, 0x1234, .raw [1]⟩ = true := by decide
+example : Note.wf cfg64 ⟨some [], 7, .raw [1, 2]⟩ = true := by decide
+/-- a bare final note: 12 + 4 + 5 bytes, 3 bytes short of its padded size -/
+example : (encNoteBare cfg64 ⟨some gnuOwner, 3, .buildId [1, 2, 3, 4, 5]⟩).length = 21
+    ∧ (encNote cfg64 ⟨some gnuOwner, 3, .buildId [1, 2, 3, 4, 5]⟩).length = 24 := by decide
+/-- a descriptor of declared size 9 of which the file holds 2 bytes; owner "X", unknown type -/
+example : ownerWf (some [0x58]) = true ∧ descKind false (some [0x58]) 7 = .raw ∧ ([1, 2] : Bytes).length ≤ 9
+    ∧ (encNoteCut cfg64 (some [0x58]) 7 9 [1, 2]).length = 18 := by decide
+/-- an unterminated name: `n_namesz = 4`, name field "ABCD" -/
+example : ∀ b ∈ ([0x41, 0x42, 0x43, 0x44, 9, 9] : Bytes).take (4 + pad4 4), b ≠ 0 := by decide
 
 end PyElf.Props.C14
